@@ -84,6 +84,24 @@ impl<R: Host, IO> Connection<R, IO> {
 
 //@check_struct file=actix-tls/src/connect/native_tls.rs name=TlsConnector fields=connector
 pub struct TlsConnector { pub connector: AsyncNativeTlsConnector }
+impl AsyncNativeTlsConnector { pub uninterp spec fn cfg(&self) -> int; }
+#[verifier::external_body]
+pub struct NativeTlsConnector { _p: () }
+impl NativeTlsConnector { pub uninterp spec fn cfg(&self) -> int; }
+impl vstd::std_specs::convert::FromSpecImpl<NativeTlsConnector> for AsyncNativeTlsConnector {
+    open spec fn obeys_from_spec() -> bool { false }
+    uninterp spec fn from_spec(c: NativeTlsConnector) -> AsyncNativeTlsConnector;
+}
+impl From<NativeTlsConnector> for AsyncNativeTlsConnector {
+    #[verifier::external_body]
+    fn from(c: NativeTlsConnector) -> (r: AsyncNativeTlsConnector) ensures r.cfg() == c.cfg() { unimplemented!() }
+}
+impl TlsConnector {
+//@extract file=actix-tls/src/connect/native_tls.rs item="impl TlsConnector / fn new" ret=r props=C19 name=native_tls::factory_new
+//@spec
+    ensures r.connector.cfg() == connector.cfg(),   // [C19]
+//@end
+}
 
 //@extract file=actix-tls/src/connect/native_tls.rs item="impl<R, IO> Service<Connection<R, IO>> for TlsConnector / fn call" async_block=1 block_sig="async fn call_block<R: Host, IO>(stream: Connection<R, ()>, io: IO, connector: AsyncNativeTlsConnector) -> Result<Connection<R, AsyncTlsStream<IO>>, io::Error>" ret=r props=C19 name=native_tls::call_block str_lits closure_ty="Connection<R, AsyncTlsStream<IO>>@@o.req == stream.req && o.io == res;;-" closures=1
 //@spec
